@@ -447,6 +447,13 @@ def run_c11(tier, seed, res):
     n = 20000
     inputs.append(({'f': (b''.join(b'l%d\n' % i for i in range(n)), 0o644), 'keep': (b'k\n', 0o644)},
                    b'--- a/f\n+++ b/f\n@@ -1,%d +1,%d @@\n' % (n, n) + b''.join(b'-x%d\n' % i for i in range(n)) + b''.join(b'+y%d\n' % i for i in range(n)), 'failing-hunk-replacing-a-large-file'))
+    # many small failing hunks against a file with a very long line (and against one with many long lines in front of the only
+    # matching one): every failed hunk gets a comparison that quotes lines of the file, and the report is collected in memory
+    longline = b'x' + b' ' * 1000000 + b'\n'
+    inputs.append(({'f': (longline, 0o644), 'keep': (b'k\n', 0o644)}, b'--- a/f\n+++ b/f\n' + b'@@ -1 +1 @@\n-x\n+y\n' * 1500, 'many-failing-hunks-against-a-very-long-line'))
+    many = b''.join(b'L%d ' % i + b'z' * 100000 + b'\n' for i in range(50)) + b'tail\n'
+    ctx = b''.join(b' c%d\n' % i for i in range(50))
+    inputs.append(({'f': (many, 0o644), 'keep': (b'k\n', 0o644)}, b'--- a/f\n+++ b/f\n' + (b'@@ -1,52 +1,52 @@\n' + ctx + b'-nope\n+y\n tail\n') * 300, 'many-failing-hunks-against-many-long-lines'))
     # failing hunks in systematic shapes of mismatch: the failure diagnostics (closest match, hints) of the default verbosity
     m_sh = tq.initial()
     for fp in tq.failing_shapes(m_sh, 'e/i'):
